@@ -30,7 +30,8 @@ def run(ctx):
                      '() && %s', '1 && %s', '1 || %s', '() || %s', '{ %s } ~~', '{ $ } <~ %s', '%s <~ 5', '5 ~> %s', '%s ~~', '1 [%s]', '%s ; %s', '{ %s } <~ 1 ; %s',
                      '{ !! ($ < 2) ?> %s |> ^~ $ + 1 } <~ 0', '%s . b', '(%s) . 0']
         for t in templates:
-            for name in ('a', 'x', 'name', '$'):
+            # `name:` — a colon is an identifier character; the symbol of an identifier is that of its name without the colons at its ends
+            for name in ('a', 'x', 'name', '$', 'name:', 'a:'):
                 src = t.replace('%s', name)
                 for st in progsuite.STORES:
                     for host in progsuite.HOSTS:
@@ -45,6 +46,20 @@ def run(ctx):
     prog_cases = [c for c in cases if c[0] == 'PROG']
     model = vlib.run_model(prog_cases, 'c17') if drv_ok else {}
     stats = progsuite.compare_prog(ctx, prog_cases, meta, impl, model, want_balance=False)
+    # template programs: both data implementations must give the same value and the same recorded calls
+    by_key = {}
+    for c in cases:
+        if c[0] == 'RUN':
+            by_key.setdefault((c[3], c[4], c[5]), {})[c[2]] = c
+    for key, d in by_key.items():
+        if 'simple' in d and 'basic' in d:
+            ps, pb = progsuite.parse_impl(impl.get(d['simple'][1])), progsuite.parse_impl(impl.get(d['basic'][1]))
+            if ps['kind'] == 'ok' and pb['kind'] == 'ok':
+                # External application is a BasicGarnishData feature (apply callback): skip programs whose traces contain it
+                if 'apply(' in (ps.get('log') or '') + (pb.get('log') or '') or '(x ' in key[1]:
+                    continue
+                if progsuite.canon(ps['value']) != progsuite.canon(pb['value']) or progsuite.canon(ps['log']) != progsuite.canon(pb['log']):
+                    ctx.fail('oracle', d['basic'], impl=impl.get(d['basic'][1]), model=None, expect=impl.get(d['simple'][1]), note=f'the two data implementations disagree on the value or on the host calls of {vlib.unesc(key[0])!r}')
     # template programs: protocol checked directly on the recorded calls
     import re
     nt = 0
